@@ -161,7 +161,16 @@ func (b bound) String(name string) string {
 	if b.unset {
 		return name + "=UNSET"
 	}
-	return fmt.Sprintf("%s=%s:%s:%s", name, b.dt, b.goType, b.val)
+	// the last field is the text the variable expands to (`out $name`): the converted value, not the argument
+	return fmt.Sprintf("%s=%s:%s:%s:%q", name, b.dt, b.goType, b.val, b.text())
+}
+
+func (b bound) text() string {
+	if b.goType == "float64" {
+		f, _ := strconv.ParseFloat(b.val, 64)
+		return strconv.FormatFloat(f, 'f', -1, 64)
+	}
+	return b.val
 }
 
 // convert models "converted to the declared type". ok=false: cannot be converted.
@@ -257,7 +266,8 @@ func defineDump() {
 				parts = append(parts, name+"=UNSET")
 				continue
 			}
-			parts = append(parts, fmt.Sprintf("%s=%s:%T:%v", name, p.Variables.GetDataType(name), v, v))
+			str, _ := p.Variables.GetString(name)
+			parts = append(parts, fmt.Sprintf("%s=%s:%T:%v:%q", name, p.Variables.GetDataType(name), v, v, str))
 		}
 		_, err := p.Stdout.Writeln([]byte(strings.Join(parts, "\x1f")))
 		return err
@@ -331,7 +341,7 @@ func checkCall(c *vlib.Ctx, ps []pspec, sig string, args []string, sample bool) 
 			continue
 		}
 		if want := b.String(paramNames[i]); got[i] != want {
-			c.Violation("binding", w, fmt.Sprintf("parameter %d: %s, expected %s (name=dataType:GoType:value)", i+1, got[i], want))
+			c.Violation("binding", w, fmt.Sprintf("parameter %d: %s, expected %s (name=dataType:GoType:value:text)", i+1, got[i], want))
 		}
 	}
 }
@@ -356,7 +366,7 @@ func argLists(ps []pspec, vals []string, fn func(args []string)) {
 	}
 }
 
-var argFull = []string{"7", "abc", "", "1.5", "true", "0"}
+var argFull = []string{"7", "abc", "", "1.5", "true", "0", "007", "1e2"}
 var argSmall = []string{"7", "abc", "1.5"}
 
 func runBinding(c *vlib.Ctx) {
@@ -712,7 +722,7 @@ func runGrammar(c *vlib.Ctx) {
 func init() {
 	vlib.Register(&vlib.Check{
 		ID: "C23", Engine: "E2",
-		Rule: "(1) binding: every signature of 1..N parameters (names pa,pb,pc; optional marker; type str/int/num/bool/omitted; default none/[]/[5]/[a b]/[x,\"y]; description none/\"d\"/\"a, b: [c]!\"; no mandatory after optional; quick N=2, thorough N=3 with defaults {none,[5],[x,\"y]} and descriptions {none,punctuated} at N=3) is defined with `function` (one-line and newline layouts alternating) and called with every argument list that supplies all mandatory parameters and any prefix of the optional ones, each argument from {7,abc,'',1.5,true,0} (reduced to {7,abc,1.5} at N=3); a harness builtin dumps data type, Go type and value of every declared variable, compared with the binding model (str verbatim, int = number truncated, num = number, bool = truthiness, default when missing, unset without default; an unconvertible argument fails the call before the body marker). (2) grammar: every generated signature in three layouts, and every string up to length L (quick 6, thorough 8) over the 9 runes a : , \" [ ] ! space newline, goes through lang.ParseMxFunctionParameters: no panic; documented grammar (strict reference parser) => accepted with identical fields; accepted => inside the documented grammar with free whitespace; accepted results have non-empty name and type, no mandatory after optional, and are stable under print -> re-parse. Non-trivial = (1) calls in which a non-str conversion, a default or an unset optional takes part; (2) strings that are accepted or belong to the documented grammar",
+		Rule: "(1) binding: every signature of 1..N parameters (names pa,pb,pc; optional marker; type str/int/num/bool/omitted; default none/[]/[5]/[a b]/[x,\"y]; description none/\"d\"/\"a, b: [c]!\"; no mandatory after optional; quick N=2, thorough N=3 with defaults {none,[5],[x,\"y]} and descriptions {none,punctuated} at N=3) is defined with `function` (one-line and newline layouts alternating) and called with every argument list that supplies all mandatory parameters and any prefix of the optional ones, each argument from {7,abc,'',1.5,true,0,007,1e2} (reduced to {7,abc,1.5} at N=3); a harness builtin dumps data type, Go type, value and the text the variable expands to, for every declared variable, compared with the binding model (str verbatim, int = number truncated, num = number, bool = truthiness, default when missing, unset without default; an unconvertible argument fails the call before the body marker). (2) grammar: every generated signature in three layouts, and every string up to length L (quick 6, thorough 8) over the 9 runes a : , \" [ ] ! space newline, goes through lang.ParseMxFunctionParameters: no panic; documented grammar (strict reference parser) => accepted with identical fields; accepted => inside the documented grammar with free whitespace; accepted results have non-empty name and type, no mandatory after optional, and are stable under print -> re-parse. Non-trivial = (1) calls in which a non-str conversion, a default or an unset optional takes part; (2) strings that are accepted or belong to the documented grammar",
 		Run: func(c *vlib.Ctx) {
 			runBinding(c)
 			runGrammar(c)
